@@ -70,10 +70,31 @@ type frame struct {
 	CatchAct string   // normal throw rethrow ret brk cont gopanic inner   (every clause body does the same)
 	Fin      string   // none normal ret throw brk cont gopanic inner
 	Inner    *frame   // placed where a part says "inner"
+	Reenter  string   // re-entrant programs: the parts that call the enclosing function again before they do
+	//                   what Exit / CatchAct / Fin say — letters b (try block) c (every catch body) f (finally block)
 }
 
 type builder struct {
 	marker, site, tryID int
+	reenter             func() []Stmt // the statements that call the enclosing function again (nil: none)
+}
+
+// the part's action, preceded by the re-entering call when the frame asks for it in this part
+func (b *builder) part(f frame, which byte, a string, loopDepth int) []Stmt {
+	act := b.action(a, f.Inner, loopDepth)
+	if b.reenter == nil || !containsByte(f.Reenter, which) {
+		return act
+	}
+	return append(append([]Stmt{b.e()}, b.reenter()...), act...)
+}
+
+func containsByte(s string, c byte) bool {
+	for i := 0; i < len(s); i++ {
+		if s[i] == c {
+			return true
+		}
+	}
+	return false
 }
 
 func (b *builder) e() Stmt   { b.marker++; return Stmt{K: "e", N: b.marker} }
@@ -109,13 +130,13 @@ func (b *builder) action(a string, inner *frame, loopDepth int) []Stmt {
 func (b *builder) try(f frame, loopDepth int) Stmt {
 	b.tryID++
 	s := Stmt{K: "y", N: b.tryID}
-	s.Body = b.action(f.Exit, f.Inner, loopDepth)
+	s.Body = b.part(f, 'b', f.Exit, loopDepth)
 	for _, rn := range f.Layout {
 		act := f.CatchAct
 		if act == "throw" {
 			act = "throwother"
 		}
-		s.Catches = append(s.Catches, Catch{Types: relByName(rn).types, Body: b.action(act, f.Inner, loopDepth)})
+		s.Catches = append(s.Catches, Catch{Types: relByName(rn).types, Body: b.part(f, 'c', act, loopDepth)})
 	}
 	if f.Fin != "none" {
 		s.HasFin = true
@@ -123,7 +144,7 @@ func (b *builder) try(f frame, loopDepth int) Stmt {
 		if act == "throw" {
 			act = "throwother"
 		}
-		s.Fin = b.action(act, f.Inner, loopDepth)
+		s.Fin = b.part(f, 'f', act, loopDepth)
 	}
 	return s
 }
@@ -286,6 +307,161 @@ func enumDepth2(full bool, emit func(Case)) {
 	}
 }
 
+// ------------------------------------------------------------ re-entrant programs
+//
+// The function g0 is one frame (a try statement described by what its parts do), in a loop or not, followed by
+// `return`; the parts named by Reenter call g0 again — directly, through a second function g1 (mutual recursion) or
+// through an anonymous function — with $n - 1 *before* they do their own action. So while the inner activations
+// run, the outer one holds: in the try block nothing yet (the loop state at most); in a catch body the caught
+// object; in the finally block the pending return value / thrown object / break / continue of the try-catch part.
+// Every activation returns, throws and prints numbers that carry its level, so a pending control, a catch
+// variable or a loop position that is kept per statement instead of per activation shows in the trace.
+
+var reentryForms = []string{"direct", "mutual", "wrapped", "caught"}
+
+type reentryShape struct {
+	Form   string // direct | mutual (through g1) | wrapped (through an anonymous function) | caught (the call sits in try / catch (Throwable): what the inner activation throws stays inside the part that called it)
+	Levels int    // activations of g0 nested in one another (2 or 3)
+	Guard  bool   // the top-level call sits in try / catch (Throwable) / finally
+}
+
+func reentryShapes() []reentryShape {
+	var res []reentryShape
+	for _, f := range reentryForms {
+		for _, l := range []int{2, 3} {
+			for _, g := range []bool{false, true} {
+				res = append(res, reentryShape{f, l, g})
+			}
+		}
+	}
+	return res
+}
+
+func buildReentry(f frame, loop bool, sh reentryShape) Case {
+	b := &builder{}
+	switch sh.Form {
+	case "direct":
+		b.reenter = func() []Stmt { return []Stmt{{K: "cf", N: 0}} }
+	case "mutual":
+		b.reenter = func() []Stmt { return []Stmt{{K: "cf", N: 1}} }
+	case "caught":
+		b.reenter = func() []Stmt {
+			b.tryID++
+			return []Stmt{{K: "y", N: 50 + b.tryID, Body: []Stmt{{K: "cf", N: 0}}, Catches: []Catch{{Types: []int{0}, Body: []Stmt{b.e()}}}}}
+		}
+	case "wrapped":
+		b.reenter = func() []Stmt {
+			b.marker++
+			return []Stmt{{K: "f", Body: []Stmt{{K: "cf", N: 0}, b.e(), {K: "r", N: b.marker}}}}
+		}
+	}
+	t := b.try(f, 0)
+	var g0 []Stmt
+	if loop {
+		g0 = []Stmt{b.e(), {K: "l", N: 2, Body: []Stmt{b.e(), t, b.e()}}, b.e()}
+	} else {
+		g0 = []Stmt{b.e(), t, b.e()}
+	}
+	b.marker++
+	g0 = append(g0, Stmt{K: "r", N: b.marker})
+	c := Case{G: enumGraph(), Fns: [][]Stmt{g0}}
+	c.Depth = sh.Levels
+	if sh.Form == "mutual" {
+		// g1 relays: every second level is an activation of g1 holding nothing but its own return value
+		b.marker++
+		g1 := []Stmt{b.e(), {K: "cf", N: 0}, b.e(), {K: "r", N: b.marker}}
+		c.Fns = append(c.Fns, g1)
+		c.Depth = 2*sh.Levels - 1
+	}
+	call := []Stmt{b.e(), {K: "cf", N: 0}, b.e()}
+	if sh.Guard {
+		b.tryID = 90
+		c.Prog = []Stmt{b.e(), {K: "y", N: 91, Body: call, Catches: []Catch{{Types: []int{0}, Body: []Stmt{b.e()}}}, HasFin: true, Fin: []Stmt{b.e()}}, b.e()}
+	} else {
+		c.Prog = call
+	}
+	return c
+}
+
+// the places a frame can re-enter from: every non-empty subset of {try block, catch bodies, finally block} that the
+// frame has (full), or the singletons and the full set (reduced)
+func reenterSets(f frame, full bool) []string {
+	var parts []byte
+	parts = append(parts, 'b')
+	if len(f.Layout) > 0 {
+		parts = append(parts, 'c')
+	}
+	if f.Fin != "none" {
+		parts = append(parts, 'f')
+	}
+	var res []string
+	for m := 1; m < 1<<len(parts); m++ {
+		var s []byte
+		for k, p := range parts {
+			if m&(1<<k) != 0 {
+				s = append(s, p)
+			}
+		}
+		if full || len(s) == 1 || len(s) == len(parts) {
+			res = append(res, string(s))
+		}
+	}
+	return res
+}
+
+// re-entry: exit path × handler layout × catch-body action × finally action × re-entering parts × {loop, no loop};
+// × every shape (recursion form × levels × guarded top) in the full enumeration, three shapes per program, rotating
+// through all of them, in the reduced one
+func enumReentry(full bool, emit func(Case)) {
+	exits := []string{"fall", "ret", "brk", "cont", "throw", "gopanic", "callthrow"}
+	acts := []string{"normal", "throw", "rethrow", "ret", "brk", "cont", "gopanic"}
+	fins := []string{"none", "normal", "ret", "throw", "brk", "cont", "gopanic"}
+	shapes := reentryShapes()
+	rot := 0
+	for _, ex := range exits {
+		ls := [][]string{{}, {"same"}, {"sibling"}, {"throwable"}}
+		if !throwing(ex) {
+			ls = [][]string{{}, {"same"}}
+		}
+		for _, l := range ls {
+			as := acts
+			if !throwing(ex) || len(l) == 0 || l[0] == "sibling" {
+				as = []string{"normal"} // the clause body never runs
+			}
+			for _, a := range as {
+				for _, fin := range fins {
+					if len(l) == 0 && fin == "none" {
+						continue
+					}
+					f0 := frame{Exit: ex, Layout: l, CatchAct: a, Fin: fin}
+					for _, re := range reenterSets(f0, full) {
+						f := f0
+						f.Reenter = re
+						loops := []bool{false, true}
+						if usesJump(&f) {
+							loops = []bool{true}
+						}
+						for _, loop := range loops {
+							var shs []reentryShape
+							if full {
+								shs = shapes
+							} else {
+								shs = []reentryShape{shapes[rot%len(shapes)], shapes[(rot+5)%len(shapes)], shapes[(rot+10)%len(shapes)]}
+								rot++
+							}
+							for _, sh := range shs {
+								c := buildReentry(f, loop, sh)
+								c.Tag = fmt.Sprintf("re/%s/%v/%s/%s/reenter:%s/loop:%v/%s.%d.%v", ex, l, a, fin, re, loop, sh.Form, sh.Levels, sh.Guard)
+								emit(c)
+							}
+						}
+					}
+				}
+			}
+		}
+	}
+}
+
 // ------------------------------------------------------------ seeded random programs (depth ≤ 4, hierarchies ≤ 5 user classes)
 
 func randGraph(r *vh.Rand) Graph {
@@ -322,6 +498,7 @@ type rgen struct {
 	b      builder
 	budget int
 	noHost bool // keep the host-panic statement out (a panic outside every try ends the run at once)
+	nfns   int  // named functions that `cf` may call (0: no such statement)
 }
 
 func (x *rgen) userClass() int {
@@ -359,6 +536,10 @@ func (x *rgen) block(depth int, inLoop, inCatch, guarded bool) []Stmt {
 	for k := 0; k < n && x.budget > 0; k++ {
 		x.budget--
 		p := x.r.Intn(100)
+		if x.nfns > 0 && x.r.Chance(18) {
+			res = append(res, Stmt{K: "cf", N: x.r.Intn(x.nfns)})
+			continue
+		}
 		switch {
 		case p < 22:
 			res = append(res, x.b.e())
@@ -406,4 +587,19 @@ func randCase(r *vh.Rand) Case {
 	x := &rgen{r: r, g: randGraph(r), budget: 14 + r.Intn(30)}
 	depth := 1 + r.Intn(4)
 	return Case{G: x.g, Prog: x.block(depth, false, false, false), Tag: "random"}
+}
+
+// a random re-entrant program: 1–3 named functions with random bodies that call one another (and themselves) from
+// anywhere — try blocks, catch bodies, finally blocks, loops — 1–3 levels deep
+func randRecCase(r *vh.Rand) Case {
+	x := &rgen{r: r, g: randGraph(r), nfns: 1 + r.Intn(3)}
+	c := Case{G: x.g, Depth: 1 + r.Intn(3), Tag: "random-reentrant"}
+	depth := 1 + r.Intn(3)
+	for k := 0; k < x.nfns; k++ {
+		x.budget = 6 + r.Intn(14)
+		c.Fns = append(c.Fns, x.block(depth, false, false, false))
+	}
+	x.budget = 3 + r.Intn(8)
+	c.Prog = append(x.block(1, false, false, false), Stmt{K: "cf", N: 0})
+	return c
 }
